@@ -11,6 +11,8 @@ for i in 01 02 03 04 05 06 07 08 09 10 11 12 13 14 15 16 17 18 19 20; do
   [ -f "MCHap/Properties/C$i.lean" ] || continue
   lake build "MCHap.Properties.C$i" > /dev/null 2>&1 || echo "setup: MCHap.Properties.C$i did not build"
 done
+# the whole library in one environment (all property modules imported together: no clashing names)
+lake build > /dev/null 2>&1 || echo "setup: the default targets did not build as a whole"
 cd ..
 ./check all warm > /dev/null 2>&1
 exit 0
